@@ -8,7 +8,7 @@ MSG = {
     'long': 'long-' + 'x' * 4000,
 }
 SEG = {'uu': 'ü'}
-LEAF = {'x': 'x', 'v': 'v', 'uni': MSG['uni']}
+LEAF = {'x': 'x', 'v': 'v', 'uni': MSG['uni'], 'zero': '0', 'false': 'False'}
 
 
 def seg(s):
@@ -45,7 +45,8 @@ def detail_value(d):
             'flat': {'n': LEAF['x']},
             'nested': {'k': {'j': LEAF['v']}},
             'multi': {'k': {'j': LEAF['v']}, 'n': LEAF['x']},
-            'unikey': {'n': LEAF['uni']}}[d]
+            'unikey': {'n': LEAF['uni']},
+            'falsy': {'k': {'j': False}, 'n': 0}}[d]
 
 
 def detail_tree(v):
